@@ -24,16 +24,21 @@ from translate.util import TranslateError
 
 def make_case(rng, cid, LA, LB, lmax, deriv, a_on, b_on, tight_engine=True):
     C = [rng.uniform(-2, 2) for _ in range(3)]
+    # a third of the cases are collinear along one coordinate axis through the ECP (where cosines reach +-1 and azimuths are
+    # undefined: the arguments of sqrt / acos / atan2 sit on the edge of their domains, up to rounding)
+    common_axis = rng.randrange(3) if rng.random() < 0.34 else None
     def centre(on):
         if on:
             return list(C)
-        r = 10 ** rng.uniform(-2, math.log10(60.0)) if rng.random() < 0.8 else rng.uniform(0.2, 3.0)
+        r = 10 ** rng.uniform(-2, math.log10(60.0)) if rng.random() < 0.6 else rng.uniform(0.2, 3.0)
         d = pl.rand_dir(rng)
-        if rng.random() < 0.25:       # on a coordinate axis
+        if common_axis is not None:
+            d = [0.0, 0.0, 0.0]; d[common_axis] = rng.choice([-1.0, 1.0])
+        elif rng.random() < 0.25:       # on a coordinate axis
             d = [0.0, 0.0, 0.0]; d[rng.randrange(3)] = rng.choice([-1.0, 1.0])
         return [C[i] + r * d[i] for i in range(3)]
     def shell(l, on):
-        n = rng.choice([1, 1, 2, 3])
+        n = rng.choice([1, 1, 2, 3]) if common_axis is None else rng.choice([2, 3, 4])
         return {"l": l, "c": centre(on), "prims": [[10 ** rng.uniform(-3, 6) if rng.random() < 0.5 else 10 ** rng.uniform(-1.5, 1.5), rng.choice([-1, 1]) * 10 ** rng.uniform(-2, 0.5)] for _ in range(n)]}
     prims = []
     for l in range(lmax + 1):
